@@ -884,3 +884,26 @@ def run(index, rep, tier):
                     rep.check(nd is not None and nd not in seen, "R09.29", f.qualname, "`%s` written without a None test" % xt, fn_where(f, x), "%s: `%s` used only where it is set" % (f.name, xt),
                               "%s uses `%s` as text on a path that has not established that the state HAS a symbol: an ambiguous or polymorphic state parsed from `{01}` / `(12)` has the symbol None, so the document gets the word `None` - a NEXUS cell `None` is read back as the states N, o, n, e (InvalidCharacterStateSymbolError), a NeXML state `symbol=\"None\"` as a state called None (and two of them collide)" % (f.qualname, xt))
         rep.floor("R09.29", "reads of a state's symbol in the writers", 5, n29)
+
+    # ---- R09.30 / R09.31 labels survive the sequence-only formats as written
+    with rep.section("R09.30"):
+        rep.rule("R09.30", "a FASTA label is the whole definition line: in FastaReader._read the name taken from a `>` line is the rest of the line with surrounding blanks stripped - it is not cut at the first blank (split / partition / a constant index), because the writer puts labels with blanks there unquoted and they are the taxon's label")
+        fr = index.function("dendropy.dataio.fastareader.FastaReader._read")
+        nm = [a for a in ast.walk(fr.node) if isinstance(a, ast.Assign) and len(a.targets) == 1 and isinstance(a.targets[0], ast.Name) and a.targets[0].id == "name" and not is_none(a.value)]
+        if not nm:
+            raise AnalysisError("R09.30: the label assignment in FastaReader._read not recognised")
+        for a in nm:
+            cuts = [x for x in ast.walk(a.value) if (isinstance(x, ast.Call) and call_name(x) in ("split", "rsplit", "partition", "rpartition")) or (isinstance(x, ast.Subscript) and isinstance(x.slice, ast.Constant))]
+            rep.check(not cuts, "R09.30", fr.qualname, "label cut short", fn_where(fr, a), "FastaReader._read: `%s` keeps the whole line" % norm_stmt(a)[:50],
+                      "FastaReader._read computes the label as `%s`: only part of the definition line is kept - `Homo sapiens` reads back as `Homo`, and two labels with the same first word are refused as a repeated sequence name" % norm(a.value)[:60])
+    with rep.section("R09.31"):
+        rep.rule("R09.31", "the underscore option of the PHYLIP reader applies to both label conventions: in PhylipReader._parse_taxon_from_line the `underscores_to_spaces` test lies on every path from the entry to the normal return - it follows the strict / relaxed alternative, it is not part of one arm - so a label written with spaces_to_underscores under strict=True comes back with its blanks")
+        ptl = index.function("dendropy.dataio.phylipreader.PhylipReader._parse_taxon_from_line")
+        g31 = cfg_of(ptl)
+        tests31 = [nd for nd in g31.nodes if nd.kind == "test" and "underscores_to_spaces" in norm(nd.ast)]
+        if not tests31:
+            raise AnalysisError("R09.31: the underscores_to_spaces test in _parse_taxon_from_line not recognised")
+        ids31 = {id(t) for t in tests31}
+        ok31 = g31.must_pass(g31.entry, lambda nd: id(nd) in ids31, skip_src=False)[0]
+        rep.check(ok31, "R09.31", ptl.qualname, "underscore option applied on one label convention only", fn_where(ptl, tests31[0].stmt), "_parse_taxon_from_line consults underscores_to_spaces on every path",
+                  "PhylipReader._parse_taxon_from_line has a path to its return that never consults `underscores_to_spaces`: under that label convention (strict 10-character labels, or relaxed ones) the option is ignored and `Homo_sap` comes back with the underscore where the writer had put a blank")
